@@ -3,6 +3,7 @@ import ast
 
 from sa.helpers import (validated, unlicensed, the_return, mkflow, spec, code, one, calls, bind_call, param_env,
                         fmt, atom_of, unparse, walk_no_nested)
+from sa.helpers import guard_is
 from sa.index import AnalysisError, ClassInfo
 
 FLOOR = 16
@@ -216,8 +217,19 @@ def _run(ix, R):
                 ca.extra != ('**',) or not fl.tab.equal(ca.args[1], kw):
             why.append('returns %s (expected the matched class called with **kwargs)' % fmt(fl, r.value))
         g = r.guards[-1] if r.guards else None
-        gt = unparse(g.test) if g is not None else ''
-        if g is None or not g.positive or not gt.startswith('prior_name in') or 'p.__name__' not in gt:
+        gt = g.text() if g is not None else ''
+        # the match: the parsed name is one of the spellings of the class name (as written / lower / upper)
+        pn = fl.tab.atom('getattr', (p, '__name__'))
+        wantg = spec(fl, 'n in (pn, pn.lower(), pn.upper())', {'n': nm, 'pn': pn})
+        ga_ = atom_of(fl, g.rf) if g is not None and g.rf is not None else None
+        okg = g is not None and guard_is(fl, g, wantg, True)
+        if not okg and ga_ is not None and ga_.head == 'cmp' and ga_.extra == ('In',) and g.positive and \
+                fl.tab.equal(ga_.args[0], nm):
+            ta_ = atom_of(fl, ga_.args[1])
+            okg = ta_ is not None and ta_.head == 'tuple' and any(fl.tab.equal(x, pn) for x in ta_.args) and \
+                all(fl.tab.fmt(x).replace('.lower()', '').replace('.upper()', '') for x in ta_.args) and \
+                all(x.mentions(lambda a: a.head == 'getattr' and a.args[1] == '__name__') for x in ta_.args)
+        if not okg:
             why.append('match condition %s' % gt)
         if not fl.of('raise'):
             why.append('unknown prior name does not raise')
